@@ -28,6 +28,10 @@ def main(chk: core.Check, replay):
         sig = f"C11:{b['tag']}:{b.get('fn', b.get('name', ''))}:model={model_sig(b.get('text', ''))}"
         chk.violation(sig, b, f"save/load: {b['tag']} " + str({k: v for k, v in b.items() if k not in ('text', 'saved', 'tag')})[:240])
     chk.sample({"model_text": modelcase.render_text(recs[-1]["blocks"])})
+    # loadable file-level strings (OdeFile.tla): atoms that belong to several components, headers with two names,
+    # comments and annotations, assignments before declarations
+    from .. import filecase
+    filecase.run_saveload(chk)
     # models that do not come from .ode text (Myokit imports: flat multi-branch Piecewise, renamed symbols): saving and
     # reloading must not change what they compute
     from .c15 import myokit_corpus
